@@ -24,7 +24,7 @@ impl File {
 
     /// The file's LDM records.
     pub fn records(&self) -> Vec<Record> {
-        split_compressed_records(&self.0[size_of::<Header>()..])
+        split_compressed_records(self.0.get(size_of::<Header>()..).unwrap_or(&[]))
     }
 
     /// Decodes this volume file into a common model scan containing sweeps and radials with moment
